@@ -18,7 +18,8 @@ use super::frame::verif_kani::stub_random_state;
 pub(crate) fn flags(strict: bool, real: bool, ignore: bool) -> SimFlags {
     SimFlags { strict, use_real_traps: real, machine_init: MachineInitStrategy::Known { value: 0 }, debug_frames: false, ignore_privilege: ignore }
 }
-pub(crate) fn any_sim(fl: SimFlags) -> Simulator {
+pub(crate) fn any_sim(fl: SimFlags) -> Simulator { any_sim_with(fl, DeviceHandler::verif_unused()) }
+pub(crate) fn any_sim_with(fl: SimFlags, device_handler: DeviceHandler) -> Simulator {
     Simulator {
         mem: MemArray::verif_any(),
         reg_file: RegFile::verif_any(),
@@ -36,7 +37,7 @@ pub(crate) fn any_sim(fl: SimFlags) -> Simulator {
         flags: fl,
         breakpoints: Default::default(),
         ireg_mmap: HashMap::new(),
-        device_handler: DeviceHandler::verif_unused(),
+        device_handler,
     }
 }
 /// Scalar machine state (everything a step may change except memory).
@@ -85,6 +86,7 @@ impl MiniMem {
         let mut i = 0;
         while i < MMN { if i < self.n_init && self.init[i].0 == addr { return self.init[i].1; } i += 1; }
         let w: Word = kani::any();
+        if unsafe { MM_ALL_INIT } { kani::assume(w.is_init()); }
         if self.n_init < MMN { self.init[self.n_init] = (addr, w); self.n_init += 1; } else { self.overflow = true; }
         w
     }
@@ -503,3 +505,646 @@ step_harness!(step_irq_virtual, Class::Irq, false);
 step_harness!(step_irq_real, Class::Irq, true);
 step_harness!(step_bad_virtual, Class::Bad, false);
 step_harness!(step_bad_real, Class::Bad, true);
+
+// =================================================================================================
+// L0 leaf contracts
+
+/// PSR bit layout (privilege bit 15, priority bits 8..10, condition codes bits 0..2) and setters.
+#[kani::proof]
+fn psr_leaf() {
+    let v: u16 = kani::any();
+    let p = PSR(v);
+    assert!(PSR::new().get() == 0x8002, "C08.psr: a new PSR is user mode, priority 0, CC z");
+    assert!(p.get() == v, "C08.psr.get");
+    assert!(p.privileged() == ((v & 0x8000) == 0), "C08.psr: bit 15 clear = supervisor");
+    assert!(p.priority() as u16 == (v >> 8) & 7, "C08.psr: priority is bits 8..10");
+    assert!(p.cc() as u16 == v & 7, "C08.psr: condition codes are bits 0..2");
+    assert!(p.is_n() == (v & 4 != 0) && p.is_z() == (v & 2 != 0) && p.is_p() == (v & 1 != 0), "C08.psr: n/z/p flags");
+    let d: u16 = kani::any();
+    let mut q = PSR(v); q.set(d);
+    assert!(q.get() == isa::psr_port(d), "C08.psr.set: keeps privilege/priority/CC bits of the data, CC forced one-hot (z otherwise)");
+    let b: bool = kani::any();
+    let mut q = PSR(v); q.set_privileged(b);
+    assert!(q.get() == (v & 0x7FFF) | (((!b) as u16) << 15), "C08.psr.set_privileged: only bit 15 changes");
+    let k: u8 = kani::any();
+    let mut q = PSR(v); q.set_priority(k);
+    assert!(q.get() == (v & 0xF8FF) | (((k & 7) as u16) << 8), "C08.psr.set_priority: only bits 8..10 change");
+    let mut q = PSR(v); q.set_cc(k);
+    let c = k & 7; let c = if c == 1 || c == 2 || c == 4 { c } else { 2 };
+    assert!(q.get() == (v & 0xFFF8) | c as u16, "C08.psr.set_cc: only bits 0..2 change, one-hot");
+    let mut q = PSR(v); q.set_cc_n(); assert!(q.get() == (v & 0xFFF8) | 4, "C08.psr.set_cc_n");
+    let mut q = PSR(v); q.set_cc_z(); assert!(q.get() == (v & 0xFFF8) | 2, "C08.psr.set_cc_z");
+    let mut q = PSR(v); q.set_cc_p(); assert!(q.get() == (v & 0xFFF8) | 1, "C08.psr.set_cc_p");
+}
+
+/// Simulator::set_cc, default_mem_ctx, prefetch_pc, offset arithmetic of the PC.
+#[kani::proof]
+#[kani::stub(std::hash::RandomState::new, stub_random_state)]
+#[kani::unwind(9)]
+fn sim_leaf() {
+    let fl = flags(kani::any(), kani::any(), kani::any());
+    let mut sim = any_sim(fl);
+    let psr0 = sim.psr.get();
+    let ctx = sim.default_mem_ctx();
+    assert!(ctx.privileged == (((psr0 & 0x8000) == 0) || fl.ignore_privilege), "C09.ctx: privileged iff supervisor mode or privilege checks disabled");
+    assert!(ctx.strict == fl.strict && ctx.io_effects && ctx.track_access, "C28.ctx: program accesses are effectful and tracked");
+    let o = MemAccessCtx::omnipotent();
+    assert!(o.privileged && !o.strict && !o.io_effects && !o.track_access, "C28.ctx: the omnipotent context is untracked and effect-free");
+    let v: u16 = kani::any();
+    sim.set_cc(v);
+    let want = if v == 0 { 2 } else if v & 0x8000 != 0 { 4 } else { 1 };
+    assert!(sim.psr.get() == (psr0 & 0xFFF8) | want, "C08.set_cc: n/z/p from the sign of the 16-bit result");
+    // C16: the faulting-address query is total
+    let (pc, pf): (u16, bool) = (kani::any(), kani::any());
+    sim.pc = pc; sim.prefetch = pf;
+    assert!(sim.prefetch_pc() == if pf { pc } else { pc.wrapping_sub(1) }, "C16.prefetch_pc: PC of the executing instruction, wrapping");
+}
+
+/// in_alloca: membership in the sorted, disjoint list of loaded blocks (C14 exemptions).
+#[kani::proof]
+#[kani::stub(std::hash::RandomState::new, stub_random_state)]
+#[kani::unwind(9)]
+fn in_alloca_contract() {
+    let mut sim = any_sim(flags(true, false, false));
+    let n: usize = kani::any();
+    kani::assume(n <= 2);
+    let (s0, l0, s1, l1): (u16, u16, u16, u16) = (kani::any(), kani::any(), kani::any(), kani::any());
+    // invariant established by load_obj_file: sorted by start, non-empty, disjoint
+    kani::assume(l0 > 0 && l1 > 0 && (s0 as u32 + l0 as u32) <= 0x10000 && (s1 as u32 + l1 as u32) <= 0x10000);
+    kani::assume(n < 2 || (s0 as u32 + l0 as u32) <= s1 as u32);
+    sim.alloca = if n == 0 { Box::new([]) } else if n == 1 { Box::new([(s0, l0)]) } else { Box::new([(s0, l0), (s1, l1)]) };
+    let a: u16 = kani::any();
+    let inside = |s: u16, l: u16| (a as u32) >= s as u32 && (a as u32) < s as u32 + l as u32;
+    let want = (n >= 1 && inside(s0, l0)) || (n >= 2 && inside(s1, l1));
+    kani::cover!(want, "address inside a block reachable");
+    assert!(sim.in_alloca(a) == want, "C14.in_alloca: true exactly for addresses inside a loaded block");
+}
+
+/// InternalRegister::read / write for each kind (C32: what a mapped port reaches).
+#[kani::proof]
+#[kani::stub(std::hash::RandomState::new, stub_random_state)]
+#[kani::unwind(9)]
+fn internal_register_contract() {
+    let mut sim = any_sim(flags(false, false, false));
+    let s0 = scalars(&sim);
+    let k: u8 = kani::any();
+    kani::assume(k < 4);
+    let reg = match k { 0 => InternalRegister::PC, 1 => InternalRegister::PSR, 2 => InternalRegister::MCR, _ => InternalRegister::SavedSP };
+    let mcr0: bool = kani::any();
+    sim.mcr.store(mcr0, std::sync::atomic::Ordering::Relaxed);
+    let got = reg.read(&mut sim);
+    let want = match k { 0 => s0.pc, 1 => s0.psr, 2 => (mcr0 as u16) << 15, _ => s0.ssp.get() };
+    assert!(got == want, "C32.ireg.read: reads the register it names");
+    assert!(scalars(&sim) == s0, "C32.ireg.read: reading changes nothing");
+    let d: u16 = kani::any();
+    reg.write(&mut sim, d);
+    let s1 = scalars(&sim);
+    match k {
+        0 => assert!(s1.pc == d && s1.psr == s0.psr && s1.ssp == s0.ssp, "C32.ireg.write: PC"),
+        1 => assert!(s1.psr == isa::psr_port(d) && s1.pc == s0.pc && s1.ssp == s0.ssp, "C32.ireg.write: PSR"),
+        2 => assert!(sim.mcr.load(std::sync::atomic::Ordering::Relaxed) == (d & 0x8000 != 0) && s1 == s0, "C32.ireg.write: MCR bit 15"),
+        _ => assert!(s1.ssp == Word::new_init(d) && s1.pc == s0.pc && s1.psr == s0.psr, "C32.ireg.write: saved SP"),
+    }
+    let mut i = 0;
+    while i < 8 { assert!(s1.r[i] == s0.r[i], "C32.ireg.write: general registers untouched"); i += 1; }
+}
+
+// =================================================================================================
+// L1: the real read_mem / write_mem bodies against the contract the L2 stubs implement.
+// Device and observer are replaced by recording stubs (their own contracts: C32 dispatch, observer map).
+
+static mut DEV_CALLS: u32 = 0;
+static mut DEV_ARGS: (u16, u16, bool) = (0, 0, false);
+static mut DEV_RET_R: Option<u16> = None;
+static mut DEV_RET_W: bool = false;
+fn rec_io_read(_d: &mut DeviceHandler, addr: u16, eff: bool) -> Option<u16> {
+    let r: Option<u16> = kani::any();
+    unsafe { DEV_CALLS += 1; DEV_ARGS = (addr, 0, eff); DEV_RET_R = r; }
+    r
+}
+fn rec_io_write(_d: &mut DeviceHandler, addr: u16, data: u16) -> bool {
+    let r: bool = kani::any();
+    unsafe { DEV_CALLS += 1; DEV_ARGS = (addr, data, false); DEV_RET_W = r; }
+    r
+}
+static mut OBS: [(u16, u8); 4] = [(0, 0); 4];
+static mut OBS_N: usize = 0;
+fn rec_observe(_o: &mut observer::AccessObserver, addr: u16, set: AccessSet) {
+    let bits = (set.read() as u8) | ((set.written() as u8) << 1) | ((set.modified() as u8) << 2);
+    unsafe { if OBS_N < 4 { OBS[OBS_N] = (addr, bits); } OBS_N += 1; }
+}
+fn any_ctx() -> MemAccessCtx { MemAccessCtx { privileged: kani::any(), strict: kani::any(), io_effects: kani::any(), track_access: kani::any() } }
+
+/// which internal-register map the L1 obligation runs with
+#[derive(Clone, Copy, PartialEq, Eq)]
+enum Map { Empty, Default }
+fn l1_sim(map: Map) -> Simulator {
+    let mut sim = any_sim(flags(kani::any(), kani::any(), kani::any()));
+    if map == Map::Default { sim.ireg_mmap = InternalRegister::default_mmap(); }
+    sim
+}
+
+fn l1_read(map: Map) {
+    let mut sim = l1_sim(map);
+    let mcr0: bool = kani::any();
+    sim.mcr.store(mcr0, std::sync::atomic::Ordering::Relaxed);
+    let s0 = scalars(&sim);
+    let addr: u16 = kani::any();
+    let ctx = any_ctx();
+    let probe: u16 = kani::any();
+    let (cell0, probe0) = (sim.mem[addr], sim.mem[probe]);
+    let r = sim.read_mem(addr, ctx);
+    let (calls, args, ret) = unsafe { (DEV_CALLS, DEV_ARGS, DEV_RET_R) };
+    let (obs_n, obs0) = unsafe { (OBS_N, OBS[0]) };
+    assert!(scalars(&sim) == s0, "L1.read: registers, PC, PSR, saved SP, counters unchanged");
+    if probe != addr { assert!(sim.mem[probe] == probe0, "L1.read: every other memory cell unchanged"); }
+    let denied = !ctx.privileged && !user_range(addr);
+    kani::cover!(denied, "denied read reachable");
+    kani::cover!(!denied && addr >= 0xFE00, "I/O read reachable");
+    if denied {
+        assert!(matches!(r, Err(SimErr::AccessViolation)), "C09.read: user-mode access outside x3000..xFDFF is an access violation");
+        assert!(sim.mem[addr] == cell0 && calls == 0 && obs_n == 0, "C09.read: a denied read reaches neither memory, devices nor the observer");
+        return;
+    }
+    let w = match r { Ok(w) => w, Err(_) => { assert!(false, "C09.read: every other read succeeds"); return; } };
+    if ctx.track_access { assert!(obs_n == 1 && obs0 == (addr, 1), "C28.read: a tracked read marks exactly (addr, READ)"); }
+    else { assert!(obs_n == 0, "C28.read: an untracked read is not recorded"); }
+    if addr < 0xFE00 {
+        assert!(w == cell0 && sim.mem[addr] == cell0 && calls == 0, "L1.read: a memory read returns the cell and reaches no device");
+    } else if map == Map::Default && addr == PSR_ADDR {
+        assert!(w == Word::new_init(s0.psr) && calls == 0, "C32.read: the PSR port reads the PSR, not a device");
+    } else if map == Map::Default && addr == MCR_ADDR {
+        assert!(w == Word::new_init((mcr0 as u16) << 15) && calls == 0, "C32.read: the MCR port reads the MCR, not a device");
+    } else {
+        assert!(calls == 1 && args.0 == addr && args.2 == ctx.io_effects, "C32.read: an unmapped I/O address reaches the device handler exactly once");
+        match ret { Some(d) => assert!(w == Word::new_init(d) && sim.mem[addr] == w, "C32.read: the device's value is returned (and mirrored)"),
+                    None => assert!(w == cell0 && sim.mem[addr] == cell0, "C32.read: no device answer -> the mirror cell, unchanged") }
+    }
+}
+fn l1_write(map: Map) {
+    let mut sim = l1_sim(map);
+    let s0 = scalars(&sim);
+    let addr: u16 = kani::any();
+    let data: Word = kani::any();
+    let ctx = any_ctx();
+    let probe: u16 = kani::any();
+    let (cell0, probe0) = (sim.mem[addr], sim.mem[probe]);
+    let r = sim.write_mem(addr, data, ctx);
+    let (calls, args, ret) = unsafe { (DEV_CALLS, DEV_ARGS, DEV_RET_W) };
+    let (obs_n, obs) = unsafe { (OBS_N, OBS) };
+    let s1 = scalars(&sim);
+    if probe != addr { assert!(sim.mem[probe] == probe0, "L1.write: every other memory cell unchanged"); }
+    let mut i = 0;
+    while i < 8 { assert!(s1.r[i] == s0.r[i], "L1.write: general registers unchanged"); i += 1; }
+    assert!(s1.pc == s0.pc && s1.ssp == s0.ssp && s1.depth == s0.depth && s1.icount == s0.icount, "L1.write: PC, saved SP, counters unchanged");
+    let denied = !ctx.privileged && !user_range(addr);
+    kani::cover!(denied, "denied write reachable");
+    kani::cover!(!denied && addr >= 0xFE00 && r.is_ok(), "I/O write reachable");
+    if denied {
+        assert!(matches!(r, Err(SimErr::AccessViolation)), "C09.write: user-mode access outside x3000..xFDFF is an access violation");
+        assert!(sim.mem[addr] == cell0 && calls == 0 && obs_n == 0 && s1.psr == s0.psr, "C09.write: a denied write leaves memory, devices, PSR and the observer untouched");
+        return;
+    }
+    let observed_ok = |modified: bool| if ctx.track_access {
+            obs_n == (if modified { 2 } else { 1 }) && obs[0] == (addr, 2) && (!modified || obs[1] == (addr, 4))
+        } else { obs_n == 0 };
+    if addr < 0xFE00 {
+        assert!(calls == 0 && s1.psr == s0.psr, "L1.write: a memory write reaches no device and not the PSR");
+        if ctx.strict && !data.is_init() {
+            assert!(matches!(r, Err(SimErr::StrictMemSetUninit)) && sim.mem[addr] == cell0, "C14.write: strict rejects an uninitialized word, memory unchanged");
+        } else {
+            assert!(r.is_ok() && sim.mem[addr] == data, "L1.write: the cell holds exactly the word written");
+            assert!(observed_ok(cell0 != data), "C28.write: WRITTEN always, MODIFIED exactly when the value changed, only if tracked");
+        }
+        return;
+    }
+    if ctx.strict && !data.is_init() {
+        assert!(matches!(r, Err(SimErr::StrictIOSetUninit)), "C14.write: strict rejects an uninitialized word for I/O");
+        assert!(sim.mem[addr] == cell0 && calls == 0 && obs_n == 0 && s1.psr == s0.psr, "C14.write: ... before any device or register is reached");
+        return;
+    }
+    assert!(r.is_ok(), "L1.write: every other write succeeds");
+    if map == Map::Default && addr == PSR_ADDR {
+        assert!(calls == 0 && s1.psr == isa::psr_port(data.get()) && sim.mem[addr] == data, "C32.write: the PSR port writes the PSR, not a device");
+    } else if map == Map::Default && addr == MCR_ADDR {
+        assert!(calls == 0 && s1.psr == s0.psr && sim.mcr.load(std::sync::atomic::Ordering::Relaxed) == (data.get() & 0x8000 != 0), "C32.write: the MCR port writes the MCR, not a device");
+    } else {
+        assert!(calls == 1 && args.0 == addr && args.1 == data.get() && s1.psr == s0.psr, "C32.write: an unmapped I/O address reaches the device handler exactly once");
+        if ret { assert!(sim.mem[addr] == data && observed_ok(cell0 != data), "C32.write: an accepted write is mirrored"); }
+        else { assert!(sim.mem[addr] == cell0 && obs_n == 0, "C32.write: a write no device accepts leaves memory unchanged"); }
+    }
+}
+macro_rules! l1_harness {
+    ($name:ident, $f:ident, $map:expr, $unwind:literal) => {
+        #[kani::proof]
+        #[kani::stub(std::hash::RandomState::new, stub_random_state)]
+        #[kani::stub(observer::AccessObserver::update_mem_accesses, rec_observe)]
+        #[kani::stub(<DeviceHandler as ExternalDevice>::io_read, rec_io_read)]
+        #[kani::stub(<DeviceHandler as ExternalDevice>::io_write, rec_io_write)]
+        #[kani::unwind($unwind)]
+        fn $name() { $f($map) }
+    };
+}
+l1_harness!(l1_read_empty_map, l1_read, Map::Empty, 9);
+l1_harness!(l1_write_empty_map, l1_write, Map::Empty, 9);
+l1_harness!(l1_read_default_map, l1_read, Map::Default, 17);
+l1_harness!(l1_write_default_map, l1_write, Map::Default, 17);
+
+// =================================================================================================
+// Relational obligations: two runs of the real step from the same state.
+
+/// Replays, in the second run of a relational harness, the device values the first run was given.
+static mut IO_REPLAY: Option<([(u16, Word); 4], usize)> = None;
+static mut IO_REPLAY_POS: usize = 0;
+pub(crate) fn contract_read_mem_replay(s: &mut Simulator, addr: u16, ctx: MemAccessCtx) -> Result<Word, SimErr> {
+    if !ctx.privileged && !user_range(addr) { return Err(SimErr::AccessViolation); }
+    let m = mm();
+    let w = if addr < 0xFE00 { m.current(addr) }
+        else if addr == PSR_ADDR { Word::new_init(s.psr.get()) }
+        else {
+            let fresh: Word = if addr == MCR_ADDR { Word::new_init((kani::any::<bool>() as u16) << 15) } else { kani::any() };
+            if unsafe { MM_ALL_INIT } { kani::assume(fresh.is_init()); }
+            let w = unsafe { match IO_REPLAY { Some((vals, n)) if IO_REPLAY_POS < n && vals[IO_REPLAY_POS].0 == addr => { let w = vals[IO_REPLAY_POS].1; IO_REPLAY_POS += 1; w }, _ => fresh } };
+            if m.n_io < 4 { m.io_reads[m.n_io] = (addr, w); m.n_io += 1; } else { m.overflow = true; }
+            w
+        };
+    m.push_log(Access { write: false, addr, data: w, privileged: ctx.privileged, strict: ctx.strict, track: ctx.track_access, io_effects: ctx.io_effects });
+    Ok(w)
+}
+/// second run starts from the same pre-state memory as the first
+fn rewind_memory(first: &MiniMem) {
+    unsafe {
+        MM = MiniMem::new();
+        MM.init = first.init; MM.n_init = first.n_init;
+        IO_REPLAY = Some((first.io_reads, first.n_io)); IO_REPLAY_POS = 0;
+    }
+}
+/// the two runs made the same writes and the same device accesses (what C12/C14 call memory and device effects)
+fn same_effects(a: &MiniMem, b: &MiniMem) -> bool {
+    let eff = |x: &Access| x.write || x.addr >= 0xFE00;
+    let mut ok = true;
+    let mut i = 0;
+    while i < 8 {
+        if i < a.n_log { let x = a.log[i].unwrap(); if eff(&x) {
+            let mut f = false; let mut j = 0;
+            while j < 8 { if j < b.n_log { let y = b.log[j].unwrap(); if y.write == x.write && y.addr == x.addr && (!x.write || y.data == x.data) { f = true; } } j += 1; }
+            if !f { ok = false; } } }
+        if i < b.n_log { let x = b.log[i].unwrap(); if eff(&x) {
+            let mut f = false; let mut j = 0;
+            while j < 8 { if j < a.n_log { let y = a.log[j].unwrap(); if y.write == x.write && y.addr == x.addr && (!x.write || y.data == x.data) { f = true; } } j += 1; }
+            if !f { ok = false; } } }
+        i += 1;
+    }
+    ok
+}
+fn same_scalars(a: &Scalars, b: &Scalars) -> bool {
+    let mut ok = a.pc == b.pc && a.psr == b.psr && a.ssp == b.ssp && a.depth == b.depth && a.icount == b.icount;
+    let mut i = 0;
+    while i < 8 { if a.r[i] != b.r[i] { ok = false; } i += 1; }
+    ok
+}
+fn any_alloca() -> Box<[(u16, u16)]> {
+    if kani::any() { Box::new([]) } else {
+        let (s, l): (u16, u16) = (kani::any(), kani::any());
+        kani::assume(l > 0 && (s as u32 + l as u32) <= 0x10000);
+        Box::new([(s, l)])
+    }
+}
+
+/// C14: strict mode only adds uninitialized-value errors (one step, any state).
+fn strict_vs_lenient(real_traps: bool, all_init: bool) {
+    let ign: bool = kani::any();
+    let sc = any_scalars();
+    kani::assume(sc.depth < u64::MAX);
+    let pend: Option<(u8, u8)> = kani::any();
+    let alloca = any_alloca();
+    if all_init {
+        let mut i = 0;
+        while i < 8 { kani::assume(sc.r[i].is_init()); i += 1; }
+        kani::assume(sc.ssp.is_init());
+    }
+    unsafe { PENDING = pend; MM = MiniMem::new(); MM_ALL_INIT = all_init; IO_REPLAY = None; }
+    let mut a = sim_from(sc, flags(false, real_traps, ign));
+    a.alloca = alloca.clone(); a.prefetch = false;
+    let ra = a.step_in();
+    let ma = *mm();
+    rewind_memory(&ma);
+    let mut b = sim_from(sc, flags(true, real_traps, ign));
+    b.alloca = alloca; b.prefetch = false;
+    // The strict next-PC check peeks at the memory array directly (initialization state only).  On a machine
+    // whose memory is all initialized that cell is initialized too; the cell is the lenient run's next PC.
+    if all_init { kani::assume(b.mem[scalars(&a).pc].is_init()); }
+    let rb = b.step_in();
+    let mb = *mm();
+    assert!(!ma.overflow && !mb.overflow, "L2.frame: access log within capacity");
+    let (sa, sb) = (scalars(&a), scalars(&b));
+    kani::cover!(rb.is_ok(), "strict step succeeding reachable");
+    kani::cover!(all_init || matches!(&rb, Err(e) if is_strict_err(err_code(e))), "strict error reachable");
+    match (&ra, &rb) {
+        (_, Ok(())) => {
+            assert!(ra.is_ok(), "C14.same: a step strict mode accepts is accepted without it");
+            assert!(same_scalars(&sa, &sb), "C14.same: registers, PC, PSR, saved SP, frame depth and instruction count evolve exactly as without strict mode");
+            assert!(same_effects(&ma, &mb), "C14.same: memory writes and device accesses are exactly those made without strict mode");
+        }
+        (Ok(()), Err(e)) => assert!(is_strict_err(err_code(e)), "C14.kind: a step that fails only under strict mode fails with a strict (uninitialized-value) error"),
+        (Err(_), Err(_)) => {}
+    }
+    if all_init {
+        if let Err(e) = &rb { assert!(!is_strict_err(err_code(e)), "C14.init: with all registers and memory initialized strict mode reports no strict error"); }
+    }
+}
+/// when set, the symbolic memory hands out fully initialized words only ("a machine whose memory is all initialized")
+pub(crate) static mut MM_ALL_INIT: bool = false;
+
+macro_rules! two_run_harness {
+    ($name:ident, $body:expr) => {
+        #[kani::proof]
+        #[kani::stub(std::hash::RandomState::new, stub_random_state)]
+        #[kani::stub(<DeviceHandler as ExternalDevice>::poll_interrupt, contract_poll)]
+        #[kani::stub(Simulator::read_mem, contract_read_mem_replay)]
+        #[kani::stub(Simulator::write_mem, contract_write_mem)]
+        #[kani::unwind(9)]
+        fn $name() { $body }
+    };
+}
+two_run_harness!(strict_vs_lenient_virtual, strict_vs_lenient(false, false));
+two_run_harness!(strict_vs_lenient_real, strict_vs_lenient(true, false));
+two_run_harness!(strict_all_init_virtual, strict_vs_lenient(false, true));
+two_run_harness!(strict_all_init_real, strict_vs_lenient(true, true));
+
+/// C12: real vs virtual traps from the same state: a step that neither halts nor raises an exception
+/// under virtual traps is identical under real traps.  (What happens at HALT / exceptions under real
+/// traps is the entry sequence proved by the step_*_real obligations of C08.)
+fn real_vs_virtual() {
+    let ign: bool = kani::any();
+    let sc = any_scalars();
+    kani::assume(sc.depth < u64::MAX);
+    let pend: Option<(u8, u8)> = kani::any();
+    unsafe { PENDING = pend; MM = MiniMem::new(); MM_ALL_INIT = false; IO_REPLAY = None; }
+    let mut a = sim_from(sc, flags(false, false, ign));
+    a.prefetch = false;
+    let ra = a.step_in();
+    let ma = *mm();
+    let taken = match pend { Some((_, p)) => (if p > 7 { 7 } else { p }) as u16 > isa::prio(sc.psr), None => false };
+    let halted_or_failed = ra.is_err() || (scalars(&a).icount == sc.icount && !taken);
+    rewind_memory(&ma);
+    let mut b = sim_from(sc, flags(false, true, ign));
+    b.prefetch = false;
+    let rb = b.step_in();
+    let mb = *mm();
+    kani::cover!(!halted_or_failed, "ordinary step reachable");
+    if !halted_or_failed && ra.is_ok() {
+        // an interrupt taken from the exception part of the vector table (x00..x02) is outside C12
+        let low_vec = match pend { Some((v, p)) => v <= 2 && (if p > 7 { 7 } else { p }) as u16 > isa::prio(sc.psr), None => false };
+        if !low_vec {
+            assert!(rb.is_ok(), "C12.same: an ordinary step also succeeds under real traps");
+            assert!(same_scalars(&scalars(&a), &scalars(&b)), "C12.same: same registers, PC, PSR, saved SP, depth, count");
+            assert!(same_effects(&ma, &mb), "C12.same: same memory writes and device accesses");
+        }
+    }
+}
+two_run_harness!(real_vs_virtual_step, real_vs_virtual());
+
+/// C10 transparency, empty-handler case: interrupt entry immediately followed by RTI restores
+/// PC, PSR (incl. condition codes), R0-R7, the saved stack pointer and the frame depth, and writes
+/// only the two supervisor-stack words.
+fn entry_then_rti() {
+    let ign: bool = kani::any();
+    let real: bool = kani::any();
+    let sc = any_scalars();
+    kani::assume(sc.depth < u64::MAX);
+    let (v, p): (u8, u8) = (kani::any(), kani::any());
+    kani::assume((if p > 7 { 7 } else { p }) as u16 > isa::prio(sc.psr));
+    kani::assume(real || v > 2);
+    // supervisor stack lies in memory (not in the device page), and is not the vector entry itself
+    let sp = if isa::user(sc.psr) { sc.ssp.get() } else { sc.r[6].get() };
+    kani::assume(sp.wrapping_sub(1) < 0xFE00 && sp.wrapping_sub(2) < 0xFE00);
+    unsafe { PENDING = Some((v, p)); MM = MiniMem::new(); MM_ALL_INIT = false; IO_REPLAY = None; }
+    let mut s = sim_from(sc, flags(false, real, ign));
+    s.prefetch = false;
+    let r1 = s.step_in();
+    assert!(r1.is_ok(), "C10.entry: taking an interrupt succeeds");
+    let mid = scalars(&s);
+    assert!(mid.psr & 0x8000 == 0 && (mid.psr >> 8) & 7 == (if p > 7 { 7 } else { p }) as u16, "C10.entry: supervisor mode at the request's priority");
+    assert!(mid.depth == sc.depth + 1, "C27.entry: one frame deeper");
+    // the handler consists of a single RTI
+    let h = mm().current(mid.pc);
+    kani::assume(h.get() == 0x8000 && mid.pc < 0xFE00 && mid.pc != sp.wrapping_sub(1) && mid.pc != sp.wrapping_sub(2));
+    unsafe { PENDING = None; }
+    let r2 = s.step_in();
+    let end = scalars(&s);
+    kani::cover!(r2.is_ok(), "return from the handler reachable");
+    assert!(r2.is_ok(), "C10.rti: RTI in the handler succeeds");
+    assert!(end.pc == sc.pc && end.psr == sc.psr, "C10.transparent: PC and PSR (privilege, priority, condition codes) restored");
+    let mut i = 0;
+    while i < 8 { assert!(end.r[i].get() == sc.r[i].get(), "C10.transparent: R0-R7 restored (incl. the stack pointer)"); i += 1; }
+    assert!(end.ssp.get() == sc.ssp.get() && end.depth == sc.depth, "C10.transparent: saved stack pointer and frame depth restored");
+    // memory: only the two pushed words were written
+    let m = mm();
+    let mut i = 0;
+    while i < 8 {
+        if i < m.n_log { let a = m.log[i].unwrap(); if a.write { assert!(a.addr == sp.wrapping_sub(1) || a.addr == sp.wrapping_sub(2), "C10.transparent: only the supervisor stack is written"); } }
+        i += 1;
+    }
+}
+#[kani::proof]
+#[kani::stub(std::hash::RandomState::new, stub_random_state)]
+#[kani::stub(<DeviceHandler as ExternalDevice>::poll_interrupt, contract_poll)]
+#[kani::stub(Simulator::read_mem, contract_read_mem)]
+#[kani::stub(Simulator::write_mem, contract_write_mem)]
+#[kani::unwind(9)]
+fn interrupt_entry_then_rti() { entry_then_rti() }
+
+// =================================================================================================
+// C30: reset = a new machine with the same flags and MCR handle, configuration moved across.
+
+static mut NEW_CALLS: u32 = 0;
+static mut NEW_FLAGS: Option<SimFlags> = None;
+static mut NEW_MCR: *const AtomicBool = std::ptr::null();
+static mut IO_RESETS: u32 = 0;
+const MARK_PC: u16 = 0x1234;
+fn stub_new_with_mcr(fl: SimFlags, mcr: MCR) -> Simulator {
+    unsafe { NEW_CALLS += 1; NEW_FLAGS = Some(fl); NEW_MCR = Arc::as_ptr(&mcr); }
+    let mut s = any_sim_with(fl, DeviceHandler::new());
+    s.mcr = mcr;
+    s.pc = MARK_PC; // marks "the machine the constructor returned"
+    s.instructions_run = 0;
+    s
+}
+fn stub_io_reset(_d: &mut DeviceHandler) { unsafe { IO_RESETS += 1; } }
+#[kani::proof]
+#[kani::stub(std::hash::RandomState::new, stub_random_state)]
+#[kani::stub(Simulator::new_with_mcr, stub_new_with_mcr)]
+#[kani::stub(<DeviceHandler as ExternalDevice>::io_reset, stub_io_reset)]
+#[kani::unwind(9)]
+fn reset_contract() {
+    let fl = SimFlags { strict: kani::any(), use_real_traps: kani::any(), machine_init: MachineInitStrategy::Known { value: kani::any() },
+                        debug_frames: kani::any(), ignore_privilege: kani::any() };
+    let mut sim = any_sim_with(fl, DeviceHandler::new());
+    let mcr0 = Arc::as_ptr(&sim.mcr);
+    let dev0 = sim.device_handler.verif_ports_ptr();
+    sim.reset();
+    unsafe {
+        assert!(NEW_CALLS == 1, "C30.reset: state is exactly that of one freshly constructed machine");
+        assert!(NEW_FLAGS == Some(fl), "C30.reset: constructed with the same flags");
+        assert!(NEW_MCR == mcr0, "C30.reset: constructed with the same MCR handle");
+        assert!(IO_RESETS == 1, "C30.reset: attached devices are reset exactly once");
+    }
+    assert!(sim.pc == MARK_PC && sim.instructions_run == 0, "C30.reset: the simulation state is the constructor's");
+    assert!(sim.flags == fl && Arc::as_ptr(&sim.mcr) == mcr0, "C30.reset: flags and MCR handle kept");
+    assert!(sim.device_handler.verif_ports_ptr() == dev0, "C30.reset: the attached devices (handler) are moved across, not rebuilt");
+    std::mem::forget(sim);
+}
+
+// =================================================================================================
+// C13: run loops with `step` replaced by its contract.
+
+#[derive(Clone, Copy, PartialEq, Eq)]
+enum StepOut { Ok, Halt, Err }
+static mut STEP_N: usize = 0;
+static mut STEP_LAST: Option<Scalars> = None;
+static mut STEP_TAMPER: bool = false;
+static mut STEP_OUTS: [StepOut; 6] = [StepOut::Ok; 6];
+static mut STEP_CLEAR_MCR: [bool; 6] = [false; 6];
+static mut STEP_BOUND: usize = 0;
+/// Contract stub of `Simulator::step`: an arbitrary outcome; on success the instruction counter may
+/// advance by one (not on an interrupt entry), the frame depth moves by at most one, PC/registers arbitrary;
+/// a program may clear the MCR.  Also checks that nothing touched the machine since the previous step.
+fn contract_step(s: &mut Simulator) -> Result<(), StepBreak> {
+    unsafe {
+        if let Some(prev) = STEP_LAST { if !same_scalars(&prev, &scalars(s)) { STEP_TAMPER = true; } }
+        let k = STEP_N; STEP_N += 1;
+        // bounded stand-in: runs longer than the bound are not explored
+        kani::assume(k < STEP_BOUND);
+        let out = if kani::any() { StepOut::Ok } else if kani::any() { StepOut::Halt } else { StepOut::Err };
+        if k < 6 { STEP_OUTS[k] = out; }
+        let r = match out {
+            StepOut::Ok => {
+                if kani::any() { s.instructions_run = s.instructions_run.wrapping_add(1); }
+                s.pc = kani::any();
+                let d = s.frame_stack.len();
+                let nd: u64 = kani::any();
+                kani::assume(nd == d || (d < u64::MAX && nd == d + 1) || (d > 0 && nd == d - 1));
+                s.frame_stack = FrameStack::verif_new(nd);
+                if kani::any() { s.mcr.store(false, std::sync::atomic::Ordering::Relaxed); if k < 6 { STEP_CLEAR_MCR[k] = true; } }
+                Ok(())
+            }
+            StepOut::Halt => Err(StepBreak::Halt),
+            StepOut::Err => Err(StepBreak::Err(SimErr::IllegalOpcode)),
+        };
+        STEP_LAST = Some(scalars(s));
+        r
+    }
+}
+#[derive(Clone, Copy, PartialEq, Eq)]
+enum Runner { Limit, Over, Out, Run }
+/// `bound`: the harness explores runs of at most `bound` steps (BOUNDED stand-in for the event loop).
+fn run_loop_contract(which: Runner, bound: u64, with_bp: bool) {
+    let mut sim = any_sim(flags(kani::any(), kani::any(), kani::any()));
+    let bp_pc: u16 = kani::any();
+    if with_bp { sim.breakpoints.insert(Breakpoint::PC(bp_pc)); }
+    let s0 = scalars(&sim);
+    let limit: u64 = kani::any();
+    kani::assume(limit <= bound);
+    unsafe { STEP_N = 0; STEP_LAST = None; STEP_TAMPER = false; STEP_BOUND = bound as usize; }
+    let r = match which {
+        Runner::Limit => sim.run_with_limit(limit),
+        Runner::Over => sim.step_over(),
+        Runner::Out => sim.step_out(),
+        Runner::Run => sim.run(),
+    };
+    let n = unsafe { STEP_N };
+    let outs = unsafe { STEP_OUTS };
+    let cleared = unsafe { STEP_CLEAR_MCR };
+    let end = scalars(&sim);
+    assert!(!unsafe { STEP_TAMPER }, "C13.steps: between two steps the loop changes nothing of the machine");
+    assert!(!sim.mcr.load(std::sync::atomic::Ordering::Relaxed), "C13.mcr: the MCR is off when the run returns");
+    // every step but the last succeeded, did not clear the MCR and did not land on the breakpoint
+    let mut i = 0;
+    while (i as u64) < bound {
+        if i + 1 < n { assert!(outs[i] == StepOut::Ok && !cleared[i], "C13.stop: no instruction runs after a halt, an error or the MCR being cleared"); }
+        i += 1;
+    }
+    if n > 0 {
+        let last = outs[n - 1];
+        match last {
+            StepOut::Err => assert!(r.is_err(), "C13.err: an error ends the run and is returned"),
+            StepOut::Halt => assert!(r.is_ok() && sim.hit_halt() && !sim.hit_breakpoint(), "C13.halt: a halt ends the run successfully"),
+            StepOut::Ok => {
+                assert!(r.is_ok(), "C13.ok: otherwise the run succeeds");
+                let at_bp = with_bp && end.pc == bp_pc;
+                assert!(sim.hit_breakpoint() == at_bp, "C13.bp: breakpoint reported exactly when it matches after an executed instruction");
+                if !at_bp && !cleared[n - 1] {
+                    match which {
+                        Runner::Limit => assert!(end.icount.wrapping_sub(s0.icount) >= limit, "C13.limit: a run not stopped otherwise executes until the step limit"),
+                        Runner::Over => assert!(end.depth <= s0.depth, "C13.over: step_over stops once the frame depth is back at (or below) the start"),
+                        Runner::Out => assert!(end.depth < s0.depth, "C13.out: step_out stops once the frame depth is below the start"),
+                        Runner::Run => assert!(false, "C13.run: run() only stops for halt, error, breakpoint or MCR"),
+                    }
+                }
+                if cleared[n - 1] && !at_bp { assert!(sim.hit_halt(), "C13.mcr: clearing the MCR reports a halt"); }
+            }
+        }
+    } else {
+        assert!(r.is_ok() && same_scalars(&s0, &end), "C13.zero: a run of zero instructions changes nothing");
+        match which {
+            Runner::Limit => assert!(limit == 0, "C13.limit: zero steps only for a zero limit"),
+            Runner::Out => assert!(s0.depth == 0, "C13.out: step_out does nothing only at top level"),
+            _ => assert!(false, "C13.first: step_over/run execute at least one instruction"),
+        }
+    }
+    // the limit is never exceeded; step_over/out never continue once their depth condition holds
+    if which == Runner::Limit { assert!(n as u64 <= limit || limit == 0 && n == 0 || end.icount.wrapping_sub(s0.icount) <= limit, "C13.limit: never more than the limit"); }
+    kani::cover!(n >= 2, "two-step run reachable");
+}
+macro_rules! loop_harness {
+    ($name:ident, $which:expr, $bound:expr, $bp:expr, $unwind:literal) => {
+        #[kani::proof]
+        #[kani::stub(std::hash::RandomState::new, stub_random_state)]
+        #[kani::stub(Simulator::step, contract_step)]
+        #[kani::unwind($unwind)]
+        fn $name() { run_loop_contract($which, $bound, $bp) }
+    };
+}
+loop_harness!(run_with_limit_3, Runner::Limit, 3, false, 9);
+loop_harness!(step_over_3, Runner::Over, 3, false, 9);
+loop_harness!(step_out_3, Runner::Out, 3, false, 9);
+loop_harness!(run_3, Runner::Run, 3, false, 9);
+loop_harness!(run_with_limit_3_bp, Runner::Limit, 3, true, 9);
+
+// =================================================================================================
+// C32: mapping internal registers.
+fn mmap_contract(map: Map) {
+    let mut sim = l1_sim(map);
+    let addr: u16 = kani::any();
+    let k: u8 = kani::any();
+    kani::assume(k < 4);
+    let reg = match k { 0 => InternalRegister::PC, 1 => InternalRegister::PSR, 2 => InternalRegister::MCR, _ => InternalRegister::SavedSP };
+    let probe: u16 = kani::any();
+    let before_probe = sim.ireg_mmap.get(&probe).copied();
+    let before = sim.ireg_mmap.get(&addr).copied();
+    let r = sim.mmap_internal(addr, reg);
+    kani::cover!(r.is_ok(), "successful mapping reachable");
+    match r {
+        Ok(()) => { assert!(addr >= 0xFE00 && before.is_none(), "C32.mmap: succeeds only for an unmapped I/O address");
+                    assert!(sim.ireg_mmap.get(&addr).copied() == Some(reg), "C32.mmap: the address now reaches that register"); }
+        Err(MMapInternalErr::NotInIORange) => assert!(addr < 0xFE00 && sim.ireg_mmap.get(&addr).copied() == before, "C32.mmap: non-I/O addresses are rejected"),
+        Err(MMapInternalErr::AddrAlreadyMapped) => assert!(addr >= 0xFE00 && before.is_some() && sim.ireg_mmap.get(&addr).copied() == before, "C32.mmap: an occupied address is rejected and keeps its register"),
+    }
+    if probe != addr { assert!(sim.ireg_mmap.get(&probe).copied() == before_probe, "C32.mmap: other mappings unchanged"); }
+    let removed = sim.munmap_internal(probe);
+    assert!(removed == sim_had(&before_probe, probe, addr, r_ok(&r), reg), "C32.munmap: reports whether a mapping existed");
+    assert!(sim.ireg_mmap.get(&probe).is_none(), "C32.munmap: the address no longer reaches a register");
+}
+fn r_ok<E>(r: &Result<(), E>) -> bool { r.is_ok() }
+fn sim_had(before_probe: &Option<InternalRegister>, probe: u16, addr: u16, mapped: bool, _reg: InternalRegister) -> bool {
+    if probe == addr && mapped { true } else { before_probe.is_some() }
+}
+#[kani::proof]
+#[kani::stub(std::hash::RandomState::new, stub_random_state)]
+#[kani::unwind(17)]
+fn mmap_internal_empty() { mmap_contract(Map::Empty) }
+#[kani::proof]
+#[kani::stub(std::hash::RandomState::new, stub_random_state)]
+#[kani::unwind(17)]
+fn mmap_internal_default() { mmap_contract(Map::Default) }
